@@ -87,7 +87,7 @@ func H01res() {
 	gb := "grouping gb { " + wrap(pick(0, 4), uses()) + "} "
 	targets := []string{"/m:c", "/m:ll", "/m:lf", "/m:ls", "/m:ch", "/m:ch/m:cs", "/m:r", "/m:r/m:input", "/m:r/m:output", "/m:nt", "/m:ad", "/m:missing", "/m:c/m:deep/m:er", "/zz:c"}
 	aug := "augment " + targets[pick(1, len(targets))] + " { " + []string{"leaf added { type string; }", "container added { leaf in { type string; } }", "uses ga;", "case ac { leaf added { type string; } }"}[pick(1, 4)] + " } "
-	inc := []string{"", "include s1; ", "include s1; include s2; ", "include nosuch; "}[pick(2, 4)]
+	inc := []string{"", "include s1; ", "include s1; include s2; ", "include nosuch; ", "include sx; "}[pick(2, 5)]
 	imp := []string{"", "import n { prefix n; } ", "import absent { prefix ab; } "}[pick(2, 3)]
 	m := `module m { yang-version 1.1; namespace "urn:m"; prefix m; ` + inc + imp + ga + gb +
 		`leaf lf { type string; } leaf-list ll { type string; } container c { leaf x { type string; } } list ls { key k; leaf k { type string; } } ` +
@@ -100,7 +100,9 @@ func H01res() {
 	hNoFiles()
 	ms := NewModules()
 	ms.ParseOptions.IgnoreSubmoduleCircularDependencies = pick(2, 2) == 1
-	for i, t := range []string{m, s1, s2, n} {
+	// a submodule that says it belongs to a module that is not loaded (included by m all the same)
+	sx := `submodule sx { yang-version 1.1; belongs-to other { prefix o; } identity i; grouping gx { leaf y { type string; } } typedef tx { type string; } leaf from-sx { type tx; } }`
+	for i, t := range []string{m, s1, s2, n, sx} {
 		ms.Parse(t, "f"+string([]byte{'0' + byte(i)})+".yang")
 	}
 	errs := ms.Process()
@@ -143,8 +145,16 @@ func H01res() {
 func H01hist() {
 	hNoFiles()
 	ms := NewModules()
-	ty := []string{"nosuch", "m:nosuch", "string", "zz:t"}[symChoice(4)]
-	bad := `submodule sb { belongs-to m { prefix m; } container c { typedef tt { type ` + ty + `; } leaf l { type tt; } } bogus-statement x; }`
+	ty := []string{"nosuch", "m:nosuch", "string", "zz:t", "identityref { base foo; }", "leafref { path \"../x\"; }", "union { type nosuch; type string; }"}[symChoice(7)]
+	term := "; "
+	if ty[len(ty)-1] == '}' {
+		term = " "
+	}
+	bad := `submodule sb { belongs-to m { prefix m; } container c { typedef tt { type ` + ty + term + `} leaf l { type tt; } } bogus-statement x; }`
+	if symBool() {
+		// the same in a rejected module instead of a rejected submodule
+		bad = `module mb { namespace "urn:mb"; prefix mb; container c { typedef tt { type ` + ty + term + `} leaf l { type tt; } } bogus-statement x; }`
+	}
 	good := `module m { namespace "urn:m"; prefix m; leaf ok { type string; } }`
 	if symBool() {
 		ms.Parse(bad, "sb.yang")
